@@ -82,17 +82,19 @@ ChkLeaks(kind, leaks) == {V("D4", "D4|leak|" \o kind \o "|" \o l, FALSE) : l \in
 (* ------------------------------------------------------------------ D5 -- *)
 \* a message was handed to a live node. pre = state of the receiver's active swap before ("" = none active), to = first new
 \* state it stored while handling, sent = kinds it sent while handling, role = the receiver's role (for a request: the role it would take)
-\* lbl = the kind as it appears in signatures ("cancel-id-in-use" for the cancel that refuses a request with a known swap id);
 \* lossy = an earlier message of this direction was lost (dropped, or delivered to a stopped node): the receiver may be behind;
 \* disturbed = a service failure or a crash was injected before: a request may then be refused.
-\* Known deviation RequestIdRefusal: a request whose swap id the receiver knows is answered with cancel - also when it is the
-\* network's duplicate of the request that created that very swap; that cancel then hits the live swap of the requester.
+\* The honest network delivers every custom message at most once, except opening_tx_broadcasted, which peerswap itself
+\* retransmits: only that kind is ever duplicated between honest parties. (A request sent twice is adversarial behaviour of the
+\* requester: the code refuses it with cancel, as C09 / C11 demand; after such an adversarial duplicate D5 and D2 - properties of
+\* honest parties - are no longer judged, D1 / D3 / D4 still are.)
 MakerSpending == {"State_SwapOutReceiver_ClaimSwapCsv", "State_SwapInSender_ClaimSwapCsv", "State_SwapOutReceiver_ClaimSwapCoop", "State_SwapInSender_ClaimSwapCoop"}
 \* a maker that is already spending its output back ignores coop_close / cancel by design (the offer came too late)
 Superseded(role, pre, kind) == role \in Makers /\ pre \in MakerSpending /\ kind \in {"coop_close", "cancel"}
-ChkRecv(kind, lbl, dup, res, pre, to, sent, role, lossy, disturbed) ==
+ChkRecv(kind, dup, res, pre, to, sent, role, lossy, disturbed) ==
+  LET lbl == kind IN
   IF kind \in ReqKinds THEN
-     (IF dup THEN (IF sent # {} THEN {V("D5", "D5|duplicate-not-ignored|" \o kind \o "|answered-with-" \o (IF "cancel" \in sent THEN "cancel" ELSE "message"), "cancel" \in sent)} ELSE {})
+     (IF dup THEN (IF sent # {} THEN {V("D5", "D5|duplicate-not-ignored|" \o kind \o "|answered-with-" \o (IF "cancel" \in sent THEN "cancel" ELSE "message"), FALSE)} ELSE {})
       ELSE IF disturbed \/ (res = "ok" /\ AgrOfReq(kind) \in sent /\ "cancel" \notin sent) THEN {}
       ELSE {V("D5", "D5|request-refused|" \o kind \o "|" \o res, FALSE)})
   ELSE IF dup THEN
@@ -104,8 +106,8 @@ ChkRecv(kind, lbl, dup, res, pre, to, sent, role, lossy, disturbed) ==
   ELSE IF pre = "-" THEN     \* known deviation: a record stored without state is registered for good and accepts nothing
      (IF res = "ok" THEN {} ELSE {V("D5", "D5|rejected|" \o lbl \o "|" \o role \o "|record-without-state-after-crash", TRUE)})
   ELSE IF Superseded(role, pre, kind) /\ res = "rejected" /\ to = "" /\ sent = {} THEN {}
-  ELSE LET key == <<role, pre, EvOfKind(kind)>>  idr == lbl = "cancel-id-in-use" IN
-     IF res = "rejected" \/ key \notin DOMAIN TransTable THEN {V("D5", "D5|rejected|" \o lbl \o "|" \o role \o "|" \o pre, idr)}
+  ELSE LET key == <<role, pre, EvOfKind(kind)>> IN
+     IF res = "rejected" \/ key \notin DOMAIN TransTable THEN {V("D5", "D5|rejected|" \o lbl \o "|" \o role \o "|" \o pre, FALSE)}
      ELSE IF res = "ok" /\ to = TransTable[key] THEN {}
      ELSE IF res = "ok" THEN {V("D5", "D5|not-accepted|" \o lbl \o "|" \o role \o "|" \o pre \o "|went-to-" \o to, FALSE)}
      ELSE {V("D5", "D5|error|" \o lbl \o "|" \o role \o "|" \o pre \o "|" \o res, FALSE)}
@@ -133,14 +135,12 @@ ChkEndPaid(anypaid, tk, lostspendT, cr, fa) ==
 
 (* ------------------------------------------------------------------ D2 -- *)
 \* rec: [role, cur]; act: state of the node's registered swap ("" = channel released, "-" = registered without state)
-\* idr: the node received the cancel that refuses a (duplicated) request with a known id while its swap went on (known deviation RequestIdRefusal)
-ChkEndNode(rec, act, up, lostspend, idr) ==
-  LET sfx == IF idr THEN "|after-cancel-id-in-use" ELSE "" IN
+ChkEndNode(rec, act, up, lostspend) ==
   (IF rec.role # "" /\ rec.cur \notin Terminal /\ rec.cur # ""
-   THEN {V("D2", "D2|not-terminated|" \o rec.role \o "|" \o (IF lostspend THEN "crash-between-claim-broadcast-and-persist" ELSE rec.cur \o sfx), lostspend \/ idr)} ELSE {})
+   THEN {V("D2", "D2|not-terminated|" \o rec.role \o "|" \o (IF lostspend THEN "crash-between-claim-broadcast-and-persist" ELSE rec.cur), lostspend)} ELSE {})
   \cup (IF act # "" THEN {V("D2", "D2|channel-not-released|" \o (IF lostspend THEN "crash-between-claim-broadcast-and-persist"
-                                                                 ELSE IF act = "-" \/ rec.cur = "" THEN "record-without-state-after-crash" ELSE act \o sfx),
-                            lostspend \/ act = "-" \/ rec.cur = "" \/ idr)} ELSE {})
+                                                                 ELSE IF act = "-" \/ rec.cur = "" THEN "record-without-state-after-crash" ELSE act),
+                            lostspend \/ act = "-" \/ rec.cur = "")} ELSE {})
   \cup (IF ~up THEN {V("D2", "D2|node-down-after-closure", FALSE)} ELSE {})
 
 (* ------------------------------------------------------------------ D3 -- *)
